@@ -233,14 +233,37 @@ def run_case(args):
 def run_all(root="/repo", prop=None, jobs=16):
     cases = load_cases(root, prop)
     work = []
+    consulted: dict[str, set[str] | None] = {}
+
+    def _consults(p: str, c) -> bool:
+        """An independent refactoring is run against the check of property p only when it touches a module that check reads (the list of
+        modules consulted is in the evidence file of p's last run on /repo; without one, everything is run)."""
+        if p not in consulted:
+            try:
+                consulted[p] = set(json.load(open(os.path.join(VERIF, "evidence", f"{p}.json")))["coverage"]["modules_consulted"])
+            except (OSError, KeyError, ValueError):
+                consulted[p] = None
+        mods = consulted[p]
+        if mods is None:
+            return True
+        touched = {ln[6:].strip() for ln in c["diff"].splitlines() if ln.startswith("+++ b/")}
+        return bool(touched & mods)
+
     for c in cases:
         for p in c["props"]:
             if prop is None or p == prop:
+                if c.get("source") == "refactor" and not _consults(p, c):
+                    continue
                 work.append((root, c, p))
     if not work:
         return []
-    with ProcessPoolExecutor(max_workers=min(jobs, len(work))) as ex:
-        return list(ex.map(run_case, work))
+    # one self-test run at a time per machine: concurrent runs (several developers / agents) would only thrash
+    import fcntl
+
+    with open(os.path.join(tempfile.gettempdir(), "sa-selftest.lock"), "w") as lk:
+        fcntl.flock(lk, fcntl.LOCK_EX)
+        with ProcessPoolExecutor(max_workers=min(jobs, len(work))) as ex:
+            return list(ex.map(run_case, work))
 
 
 def summarise(results):
